@@ -16,6 +16,7 @@ def main() -> int:
     ap.add_argument('--replay', default=None)
     a = ap.parse_args()
     seed = int(os.environ.get('VERIF_SEED', '0'))
+    os.environ['VERIF_TIER'] = a.tier
     from vf import core
 
     core.bind_repo()
